@@ -1,10 +1,11 @@
 //! Scenario crate `scn-exchange`: the exchange lifecycle on the in-process cluster.
 
+pub mod c40;
 pub mod exchange;
 
 use simcore::{CheckSpec, Part};
 
-pub const PROPERTIES: &[&str] = &["C22", "C23", "C44", "C21", "C09", "C19"];
+pub const PROPERTIES: &[&str] = &["C22", "C23", "C44", "C21", "C09", "C19", "C40"];
 
 const CHAIN_ASSUMPTIONS: &[&str] = &[
     "programs run natively on the host, not in the SBF VM: compute budget, stack/heap limits and transaction size are not modelled",
@@ -25,6 +26,7 @@ pub fn registry(property: &str) -> Option<CheckSpec> {
         "C21" => ("fault_enumeration", 3_000, 100_000, vec!["chain part: every soft-failed execution is followed by a fork comparison (world with the abandoned operation vs world without it)"]),
         "C09" => ("exploration", 3_000, 100_000, vec!["chain part: liquidations always close the whole position; health predicates are checked in marketsim"]),
         "C19" => ("fault_enumeration", 2_000, 60_000, vec![]),
+        "C40" => ("translation_validation", 1_500, 50_000, vec!["the SDK side is gmsol_programs::model::MarketModel built from the same account bytes; its wall clock is replaced by the chain time through the cfg(gmsol_verif) hook", "replayed operations: update_fees_state, deposits and withdrawals without swap paths; position orders and swaps are compared at the decoding level only", "prices are those the program's own oracle accepts (obtained by running set_prices_from_price_feed on a fork)"]),
         _ => return None,
     };
     let property: &'static str = PROPERTIES.iter().find(|p| **p == property)?;
